@@ -206,51 +206,51 @@ Print Assumptions C11_get_data_addresses_cells.
 (* ------------------------------------------------------------------------------------------
    Non-vacuity: concrete histories on which the hypotheses of the theorems above hold (and on
    which the defects of the unrepaired code showed). *)
-Definition q1 (n : Z) : Q := Qmake n 1.
-Definition c1 (x : Z) : cell := mkCell 1 [[q1 x]].
-Definition c2 (x y : Z) : cell := mkCell 2 [[q1 x; q1 y]].
+Definition C11_q1 (n : Z) : Q := Qmake n 1.
+Definition C11_c1 (x : Z) : cell := mkCell 1 [[C11_q1 x]].
+Definition C11_c2 (x y : Z) : cell := mkCell 2 [[C11_q1 x; C11_q1 y]].
 
 (* a 1-D vector (3,) with two fields, fully populated; a 3-D vector (2,2,2) with one field,
    populated except cell (0,0,0); a 2-D one (2,2) *)
-Definition ex_ops : list op :=
+Definition C11_ex_ops : list op :=
   [ OFromShape [3]%Z (Some 2%Z) None None;
-    OSetItem 0 [IInt 0] (SArr (ANew (c2 0 1)));
-    OSetItem 0 [IInt 1] (SArr (ANew (mkCell 2 [[q1 2; q1 3]; [q1 4; q1 5]])));
+    OSetItem 0 [IInt 0] (SArr (ANew (C11_c2 0 1)));
+    OSetItem 0 [IInt 1] (SArr (ANew (mkCell 2 [[C11_q1 2; C11_q1 3]; [C11_q1 4; C11_q1 5]])));
     OSetItem 0 [IInt 2] (SArr (ANew (mkCell 2 [])));
     OFromShape [2; 2; 2]%Z None (Some [7; 8]%Z) (Some [1; 2]%Z);
     ORemoveFields 1 [8%Z];
-    OSetItem 1 [IInt 0; IInt 0; IInt 1] (SArr (ANew (c1 1)));
-    OSetItem 1 [IInt 0; IInt 1; IInt 0] (SArr (ANew (c1 10)));
-    OSetItem 1 [IInt 0; IInt 1; IInt 1] (SArr (ANew (c1 11)));
-    OSetItem 1 [IInt 1; IInt 0; IInt 0] (SArr (ANew (c1 100)));
-    OSetItem 1 [IInt 1; IInt 0; IInt 1] (SArr (ANew (c1 101)));
-    OSetItem 1 [IInt 1; IInt 1; IInt 0] (SArr (ANew (c1 110)));
-    OSetItem 1 [IInt 1; IInt 1; IInt 1] (SArr (ANew (c1 111)));
+    OSetItem 1 [IInt 0; IInt 0; IInt 1] (SArr (ANew (C11_c1 1)));
+    OSetItem 1 [IInt 0; IInt 1; IInt 0] (SArr (ANew (C11_c1 10)));
+    OSetItem 1 [IInt 0; IInt 1; IInt 1] (SArr (ANew (C11_c1 11)));
+    OSetItem 1 [IInt 1; IInt 0; IInt 0] (SArr (ANew (C11_c1 100)));
+    OSetItem 1 [IInt 1; IInt 0; IInt 1] (SArr (ANew (C11_c1 101)));
+    OSetItem 1 [IInt 1; IInt 1; IInt 0] (SArr (ANew (C11_c1 110)));
+    OSetItem 1 [IInt 1; IInt 1; IInt 1] (SArr (ANew (C11_c1 111)));
     OFromShape [2; 2]%Z (Some 1%Z) None None ].
 
 Example C11_nonvacuous_state :
-  map vshape (vecs (run ex_ops init)) = [[3]; [2; 2; 2]; [2; 2]] /\ length (heap (run ex_ops init)) = 10.
+  map vshape (vecs (run C11_ex_ops init)) = [[3]; [2; 2; 2]; [2; 2]] /\ length (heap (run C11_ex_ops init)) = 10.
 Proof. vm_compute. split; reflexivity. Qed.
 
 (* flatten on the 1-D vector: field_1 is the row-major concatenation 1, 3, 5 *)
 Example C11_nonvacuous_flatten :
-  exists v, nth_error (vecs (run ex_ops init)) 0 = Some v /\ index_of 1%Z (vfields v) = Some 1 /\
-            step (run ex_ops init) (OFieldFlatten 0 1%Z) = (run ex_ops init, RCol [q1 1; q1 3; q1 5]).
+  exists v, nth_error (vecs (run C11_ex_ops init)) 0 = Some v /\ index_of 1%Z (vfields v) = Some 1 /\
+            step (run C11_ex_ops init) (OFieldFlatten 0 1%Z) = (run C11_ex_ops init, RCol [C11_q1 1; C11_q1 3; C11_q1 5]).
 Proof. eexists. vm_compute. repeat split; reflexivity. Qed.
 
 (* set then get on the 3-D vector's unset cell *)
 Example C11_nonvacuous_set_then_get :
-  exists s', step (run ex_ops init) (OSetItem 1 [IInt 0; IInt 0; IInt (-2)] (SArr (ANew (c1 5)))) = (s', RNone).
+  exists s', step (run C11_ex_ops init) (OSetItem 1 [IInt 0; IInt 0; IInt (-2)] (SArr (ANew (C11_c1 5)))) = (s', RNone).
 Proof. eexists. vm_compute. reflexivity. Qed.
 
 (* multi-cell set_data on the 2-D vector with the slice on the SECOND axis (the case the unrepaired
    set_data got wrong), distinct addresses *)
 Example C11_nonvacuous_set_data_then_get_data :
   exists v idxs s',
-    nth_error (vecs (run ex_ops init)) 2 = Some v /\
+    nth_error (vecs (run C11_ex_ops init)) 2 = Some v /\
     resolve_checked (vshape v) [IInt 1; ISlice (Some 0%Z) (Some 2%Z) None] = inr idxs /\
     forallb (fun l => length l =? 1) idxs = false /\ NoDup (cart idxs) /\
-    step (run ex_ops init) (OSetData 2 (SList (map ANew [c1 1; c1 2])) [IInt 1; ISlice (Some 0%Z) (Some 2%Z) None])
+    step (run C11_ex_ops init) (OSetData 2 (SList (map ANew [C11_c1 1; C11_c1 2])) [IInt 1; ISlice (Some 0%Z) (Some 2%Z) None])
       = (s', RNone).
 Proof.
   eexists. exists [[1]; [0; 1]]. eexists. vm_compute. repeat split; try reflexivity.
@@ -258,39 +258,39 @@ Proof.
 Qed.
 
 (* copy of the 3-D vector succeeds; from_shape / from_data succeed *)
-Example C11_nonvacuous_copy : exists s', step (run ex_ops init) (OCopy 1) = (s', RNew).
+Example C11_nonvacuous_copy : exists s', step (run C11_ex_ops init) (OCopy 1) = (s', RNew).
 Proof. eexists. vm_compute. reflexivity. Qed.
 
 Example C11_nonvacuous_fresh :
-  (exists s', step (run ex_ops init) (OFromShape [2; 1; 3]%Z (Some 2%Z) None None) = (s', RNew)) /\
-  (exists s', step (run ex_ops init) (OFromData (Some [ANew (c2 1 2); ANew (mkCell 2 [])]) None None None) = (s', RNew)).
+  (exists s', step (run C11_ex_ops init) (OFromShape [2; 1; 3]%Z (Some 2%Z) None None) = (s', RNew)) /\
+  (exists s', step (run C11_ex_ops init) (OFromData (Some [ANew (C11_c2 1 2); ANew (mkCell 2 [])]) None None None) = (s', RNew)).
 Proof. split; eexists; vm_compute; reflexivity. Qed.
 
 (* slicing with 1, 2 and 3 fixed dimensions: v[0:2] (1-D), v[1, 0:2, 1] and v[::-1, [1], :] (3-D),
    v[:, 1] (2-D); each yields a Vector, so hypotheses of 7(a) hold and 7(b) applies *)
 Example C11_nonvacuous_slice_1d :
-  exists s', step (run ex_ops init) (OGetItem 0 [ISlice (Some 0%Z) (Some 2%Z) None]) = (s', RNew) /\
+  exists s', step (run C11_ex_ops init) (OGetItem 0 [ISlice (Some 0%Z) (Some 2%Z) None]) = (s', RNew) /\
              option_map vdata (nth_error (vecs s') 3) = Some (Node [Leaf (Some 0); Leaf (Some 1)]).
 Proof. eexists. vm_compute. split; reflexivity. Qed.
 
 Example C11_nonvacuous_slice_2d :
-  exists s', step (run ex_ops init) (OGetItem 2 [ISlice None None None; IInt 1]) = (s', RNew) /\
+  exists s', step (run C11_ex_ops init) (OGetItem 2 [ISlice None None None; IInt 1]) = (s', RNew) /\
              option_map vshape (nth_error (vecs s') 3) = Some [2; 1].
 Proof. eexists. vm_compute. split; reflexivity. Qed.
 
 Example C11_nonvacuous_slice_3d :
-  exists s', step (run ex_ops init) (OGetItem 1 [IInt 1; ISlice (Some 0%Z) (Some 2%Z) None; IInt 1]) = (s', RNew) /\
+  exists s', step (run C11_ex_ops init) (OGetItem 1 [IInt 1; ISlice (Some 0%Z) (Some 2%Z) None; IInt 1]) = (s', RNew) /\
              option_map vshape (nth_error (vecs s') 3) = Some [1; 2; 1] /\
              option_map (fun w => map (leaf_val (heap s')) (leaves (vdata w))) (nth_error (vecs s') 3)
-               = Some [Some (c1 101); Some (c1 111)].
+               = Some [Some (C11_c1 101); Some (C11_c1 111)].
 Proof. eexists. vm_compute. repeat split; reflexivity. Qed.
 
 Example C11_nonvacuous_slice_3d_partial :
-  exists s', step (run ex_ops init) (OGetItem 1 [ISlice None None (Some (-1)%Z); IList [1%Z]]) = (s', RNew) /\
+  exists s', step (run C11_ex_ops init) (OGetItem 1 [ISlice None None (Some (-1)%Z); IList [1%Z]]) = (s', RNew) /\
              option_map vshape (nth_error (vecs s') 3) = Some [2; 1; 2].
 Proof. eexists. vm_compute. split; reflexivity. Qed.
 
 Example C11_nonvacuous_get_data_3d :
-  exists ls, step (run ex_ops init) (OGetData 1 [IInt 0; ISlice None None None; IList [1; 0]%Z])
-             = (run ex_ops init, RCells ls) /\ length ls = 4.
+  exists ls, step (run C11_ex_ops init) (OGetData 1 [IInt 0; ISlice None None None; IList [1; 0]%Z])
+             = (run C11_ex_ops init, RCells ls) /\ length ls = 4.
 Proof. eexists. vm_compute. split; reflexivity. Qed.
